@@ -61,6 +61,12 @@ def unmarshal(data_in: bytes) -> typing.Tuple[int, int, FrameTypes]:
 
     # Heartbeats do not have frame length indicators
     if frame_type == constants.FRAME_HEARTBEAT and frame_size == 0:
+        if len(data_in) < 8:
+            raise exceptions.UnmarshalingException(heartbeat.Heartbeat,
+                                                   'Not all data received')
+        if data_in[7] != constants.FRAME_END:
+            raise exceptions.UnmarshalingException(heartbeat.Heartbeat,
+                                                   'Last byte error')
         return 8, channel_id, heartbeat.Heartbeat()
 
     if not frame_size:
